@@ -93,3 +93,48 @@ func VP_C09_mixed() {
 	vpReach("done")
 	vpAssert(true, "scenario-completed")
 }
+
+
+//vp:property C09 C06
+//vp:bounds one websocket tunnel: full set-up, then the client neither reads (host-to-client DATA writes block until the connection is closed) nor sends anything for a long time — longer than any timeout the gateway arms — before it drops; meanwhile the host sends two chunks
+//vp:assume virtual time: a timer fires only when every goroutine of the tunnel waits (the shortest pending one first); gorilla/hijacked connections support ONE writer at a time
+//vp:reach ended
+func VP_C09_stalled_client() {
+	vpResetHandlers()
+	g := &Gateway{}
+	tr := vpScript(4, 0)
+	tr.yieldOnRead = true
+	tr.clientGone = true
+	tr.pauseAt = 5 // before the read that finds the connection dropped
+	vpBackendReads = [][]byte{{1, 2}, {3, 4}}
+	vpAssume(!vpBool("dialfail1"))
+	vpNextTransports = []*vpTransport{tr}
+	t := &Tunnel{RDGId: "conn-1", User: vpUser(), RemoteAddr: "10.0.0.1:1"}
+	g.handleWebsocketProtocol(vpCtx(), nil, t)
+	vpRunTasks()
+	vpReach("ended")
+	vpAssert(tr.overlaps == 0, "one-writer-at-a-time-on-the-client-connection")
+	vpAssert(tr.closed, "stalled-client-connection-closed")
+}
+
+
+//vp:property C09
+//vp:bounds legacy transport: while the gateway is still writing the accept (HTTP 200 and seed) of an RDG_OUT_DATA request to the client, the client's RDG_IN_DATA request with the same connection id arrives and sends a handshake (a client that does not wait for the OUT response), then drops
+//vp:assume the hijacked connection supports ONE writer at a time; one cooperative schedule (the IN request is served in full while the accept is in flight)
+//vp:reach ended
+func VP_C09_accept_in_flight() {
+	vpResetHandlers()
+	g := &Gateway{}
+	id := vpUser()
+	mk := func(method string) *http.Request {
+		r := &http.Request{Method: method, Header: http.Header{"Rdg-Connection-Id": {"conn-1"}}}
+		return identity.AddToRequestCtx(id, r)
+	}
+	out, in := &vpTransport{}, vpScript(1, 0)
+	out.onAccept = func() {
+		g.HandleGatewayProtocol(&vpHTTPW{hdr: http.Header{}, tr: in}, mk(MethodRDGIN))
+	}
+	g.HandleGatewayProtocol(&vpHTTPW{hdr: http.Header{}, tr: out}, mk(MethodRDGOUT))
+	vpReach("ended")
+	vpAssert(out.overlaps == 0, "nothing-else-is-written-to-the-out-connection-while-its-accept-is-in-flight")
+}
